@@ -3,8 +3,15 @@ C04 — The double-array trie behaves as an exact set of keys under any insertio
 
 Model: Chokan.Model.Trie (hand-written from libs/trie; tied by the two-pass correspondence run that
 replays the implementation's own `xcheck` choices and compares complete states).
+
+`C04` is the full statement: for every alphabet, every history of insertions (with any bases the
+`xcheck` calls may return, i.e. any hash-set iteration order), clone / serde round trips and
+rejected keys that runs without a panic, `search` finds exactly the inserted keys over the alphabet.
+Proof: `Lemmas/Trie.lean` — a ghost map from used slots to label paths, an invariant relating it to
+`base/check`, preserved by `record_transition_at`, by every iteration of `rebase` and by `insert`.
 -/
 import Chokan.Model.Trie
+import Chokan.Lemmas.Trie
 
 namespace Chokan.Props.C04
 open Chokan.Trie
@@ -72,5 +79,197 @@ theorem C04_reject (t : Trie) (key oracle : List Nat) (h : ∃ c ∈ key, c ∉ 
 
 /-- A clone / serde round trip changes nothing observable. -/
 theorem C04_roundtrip (t : Trie) (ops : List Op) : run t (.roundTrip :: ops) = run t ops := rfl
+
+/-- Label lists of the accepted insertions of a history. -/
+def insertedLabels (alpha : List Nat) : List Op → List (List Nat)
+  | [] => []
+  | .roundTrip :: ops => insertedLabels alpha ops
+  | .insert key _ :: ops =>
+    match keyLabels alpha key with
+    | some r => (r ++ [alpha.length + 1]) :: insertedLabels alpha ops
+    | none => insertedLabels alpha ops
+
+/-- State invariant of a trie that holds the label lists `Ks`. -/
+def Holds (t : Trie) (Ks : List (List Nat)) : Prop :=
+  ∃ A, Inv0 t.nLabels t.nodes A ∧ FreeOK t.nodes ∧
+    ∀ M, (∃ i, A i = some M) ↔ (M = [] ∨ ∃ K ∈ Ks, ∃ k, 1 ≤ k ∧ k ≤ K.length ∧ M = K.take k)
+
+theorem holds_init (alpha : List Nat) : Holds (Trie.fromKeys alpha) [] := by
+  obtain ⟨hI, hF⟩ := inv_init (Trie.fromKeys alpha).nLabels
+  refine ⟨_, hI, hF, ?_⟩
+  intro M
+  constructor
+  · rintro ⟨i, hi⟩
+    by_cases h0 : i = 0
+    · simp [h0] at hi; exact Or.inl hi
+    · simp [h0] at hi
+  · rintro (h | ⟨K, hK, _⟩)
+    · exact ⟨0, by simp [h]⟩
+    · cases hK
+
+/-- One insertion: accepted keys are added, rejected keys are exactly those outside the alphabet. -/
+theorem insert_holds (t : Trie) (Ks : List (List Nat)) (key oracle : List Nat) (h : Holds t Ks) :
+    (∀ t' rest, t.insert key oracle = .ok (t', rest) →
+      ∃ r, keyLabels t.alpha key = some r ∧ t'.alpha = t.alpha ∧
+        Holds t' (Ks ++ [r ++ [t.alpha.length + 1]])) ∧
+    (t.insert key oracle = .reject → keyLabels t.alpha key = none) := by
+  obtain ⟨A, hI, hF, hpaths⟩ := h
+  unfold Trie.insert Trie.keyToLabels
+  cases hk : keyLabels t.alpha key with
+  | none => simp
+  | some r =>
+    simp only [Option.map_some]
+    have hlab : ∀ l ∈ r ++ [t.terminal], 1 ≤ l ∧ l ≤ t.nLabels := by
+      intro l hl
+      rcases List.mem_append.1 hl with hl | hl
+      · have := keyLabels_bound t.alpha key r hk l hl
+        simp only [Trie.nLabels]; omega
+      · simp only [List.mem_singleton] at hl; subst hl
+        simp [Trie.terminal, Trie.nLabels]
+    cases hl : insertLoop t.nLabels t.nodes 0 (r ++ [t.terminal]) oracle with
+    | ok res =>
+      obtain ⟨s', o'⟩ := res
+      simp only [Res.ok.injEq, Prod.mk.injEq, reduceCtorEq, false_implies, and_true]
+      intro t' rest ht
+      obtain ⟨ht, _⟩ := ht
+      subst ht
+      obtain ⟨A', hI', hF', hpaths'⟩ :=
+        insertLoop_inv t.nLabels _ t.nodes 0 oracle s' o' A [] hI hF hI.root_path hlab hl
+      refine ⟨r, rfl, rfl, A', hI', hF', ?_⟩
+      intro M
+      rw [hpaths' M, hpaths M]
+      simp only [List.nil_append, List.mem_append, List.mem_singleton, Trie.terminal]
+      constructor
+      · rintro ((h | ⟨K, hK, hk'⟩) | ⟨k, h1, h2, h3⟩)
+        · exact Or.inl h
+        · exact Or.inr ⟨K, Or.inl hK, hk'⟩
+        · exact Or.inr ⟨_, Or.inr rfl, k, h1, h2, h3⟩
+      · rintro (h | ⟨K, hK | hK, hk'⟩)
+        · exact Or.inl (Or.inl h)
+        · exact Or.inl (Or.inr ⟨K, hK, hk'⟩)
+        · subst hK; exact Or.inr hk'
+    | reject =>
+      exact absurd hl (insertLoop_ne_reject t.nLabels _ t.nodes 0 oracle A [] hI hF hI.root_path hlab)
+    | panic => simp
+    | badOracle => simp
+
+theorem run_holds (alpha : List Nat) : ∀ (ops : List Op) (t t' : Trie) (Ks : List (List Nat)),
+    t.alpha = alpha → Holds t Ks → run t ops = some t' →
+    t'.alpha = alpha ∧ Holds t' (Ks ++ insertedLabels alpha ops)
+  | [], t, t', Ks, ha, hH, h => by
+    simp only [run, Option.some.injEq] at h; subst h
+    simpa [insertedLabels] using ⟨ha, hH⟩
+  | .roundTrip :: ops, t, t', Ks, ha, hH, h => run_holds alpha ops t t' Ks ha hH h
+  | .insert key oracle :: ops, t, t', Ks, ha, hH, h => by
+    obtain ⟨hok, hrej⟩ := insert_holds t Ks key oracle hH
+    simp only [run] at h
+    cases hi : t.insert key oracle with
+    | ok res =>
+      obtain ⟨t1, rest⟩ := res
+      simp only [hi] at h
+      obtain ⟨r, hr, ha1, hH1⟩ := hok t1 rest hi
+      rw [ha] at hr hH1
+      have := run_holds alpha ops t1 t' _ (ha1.trans ha) hH1 h
+      simpa [insertedLabels, hr, List.append_assoc] using this
+    | reject =>
+      simp only [hi] at h
+      have hn := hrej hi
+      rw [ha] at hn
+      have := run_holds alpha ops t t' Ks ha hH h
+      simpa [insertedLabels, hn] using this
+    | panic => simp [hi] at h
+    | badOracle => simp [hi] at h
+
+theorem mem_insertedLabels (alpha : List Nat) (K : List Nat) : ∀ ops : List Op,
+    K ∈ insertedLabels alpha ops ↔
+      ∃ key ∈ insertedKeys ops, ∃ r, keyLabels alpha key = some r ∧ K = r ++ [alpha.length + 1]
+  | [] => by simp [insertedLabels, insertedKeys]
+  | .roundTrip :: ops => by simpa [insertedLabels, insertedKeys] using mem_insertedLabels alpha K ops
+  | .insert key o :: ops => by
+    have ih := mem_insertedLabels alpha K ops
+    simp only [insertedLabels, insertedKeys, List.mem_cons]
+    cases hk : keyLabels alpha key with
+    | none =>
+      simp only [ih]
+      constructor
+      · rintro ⟨k2, hk2, r, hr, hK⟩; exact ⟨k2, Or.inr hk2, r, hr, hK⟩
+      · rintro ⟨k2, hk2 | hk2, r, hr, hK⟩
+        · subst hk2; rw [hk] at hr; cases hr
+        · exact ⟨k2, hk2, r, hr, hK⟩
+    | some r0 =>
+      simp only [List.mem_cons, ih]
+      constructor
+      · rintro (h | ⟨k2, hk2, r, hr, hK⟩)
+        · exact ⟨key, Or.inl rfl, r0, hk, h⟩
+        · exact ⟨k2, Or.inr hk2, r, hr, hK⟩
+      · rintro ⟨k2, hk2 | hk2, r, hr, hK⟩
+        · subst hk2; rw [hk] at hr; rw [← Option.some.inj hr] at hK; exact Or.inl hK
+        · exact Or.inr ⟨k2, hk2, r, hr, hK⟩
+
+/-- **C04.**  The trie is an exact set: after any history that runs without a panic (whatever bases
+the `xcheck` calls returned), `search` finds a key iff it was inserted and lies over the alphabet. -/
+theorem C04 : C04_statement := by
+  intro alpha _ _ _ ops t hrun key
+  obtain ⟨ha, A, hI, hF, hpaths⟩ := run_holds alpha ops (Trie.fromKeys alpha) t [] rfl (holds_init alpha) hrun
+  simp only [List.nil_append] at hpaths
+  unfold Trie.search Trie.keyToLabels
+  rw [ha]
+  cases hk : keyLabels alpha key with
+  | none =>
+    simp only [Option.map_none, Option.isSome_none, Bool.false_eq_true, false_iff, not_and]
+    intro _ hall
+    obtain ⟨r, hr⟩ := keyLabels_some_of_mem alpha key hall
+    rw [hk] at hr; cases hr
+  | some r =>
+    simp only [Option.map_some]
+    have hterm : t.terminal = alpha.length + 1 := by simp [Trie.terminal, ha]
+    have hb := keyLabels_bound alpha key r hk
+    have hM : ∀ l ∈ r ++ [t.terminal], 1 ≤ l := by
+      intro l hl
+      rcases List.mem_append.1 hl with hl | hl
+      · exact (hb l hl).1
+      · simp only [List.mem_singleton] at hl; rw [hl, hterm]; omega
+    rw [search_iff hI _ hM, hpaths, hterm]
+    constructor
+    · rintro (h | ⟨K, hK, k, h1, h2, h3⟩)
+      · simp at h
+      · obtain ⟨key', hkey', r', hr', hKe⟩ := (mem_insertedLabels alpha K ops).1 hK
+        subst hKe
+        have hb' := keyLabels_bound alpha key' r' hr'
+        -- the prefix ends in the terminal label, so it is the whole list
+        have hkfull : r'.length < k := by
+          rcases Nat.lt_or_ge r'.length k with h | h
+          · exact h
+          · exfalso
+            rw [List.take_append_of_le_length h] at h3
+            have hmem : alpha.length + 1 ∈ r'.take k := by rw [← h3]; simp
+            have := (hb' _ (List.mem_of_mem_take hmem)).2
+            omega
+        rw [List.take_of_length_le (by simp at h2 ⊢; omega)] at h3
+        have hrr : r = r' := List.append_inj_left' h3 rfl
+        subst hrr
+        have hkk : key = key' := keyLabels_inj alpha key key' r hk hr'
+        subst hkk
+        refine ⟨hkey', ?_⟩
+        intro c hc
+        rcases Classical.em (c ∈ alpha) with h | h
+        · exact h
+        · rw [keyLabels_none_of_not_mem alpha key ⟨c, hc, h⟩] at hk; cases hk
+    · rintro ⟨hkey, _⟩
+      refine Or.inr ⟨r ++ [alpha.length + 1], (mem_insertedLabels alpha _ ops).2 ⟨key, hkey, r, hk, rfl⟩,
+        (r ++ [alpha.length + 1]).length, by simp, Nat.le_refl _,
+        (List.take_of_length_le (Nat.le_refl _)).symm⟩
+
+/-- Non-vacuity: a concrete history whose last insertion relocates the two children of a node
+(`rebase` from base 2 to base 10) runs without panic under the listed `xcheck` answers, and finds
+exactly what `C04` says. -/
+example :
+    (run (Trie.fromKeys [10, 11, 12])
+      [.insert [10, 11] [2, 5], .insert [11] [1], .insert [10] [], .roundTrip, .insert [13] [],
+       .insert [12, 10] [6, 4], .insert [10, 12] [10, 0]]).map
+      (fun t => [[10, 11], [11], [10], [12, 10], [10, 12], [12], [10, 10], [], [13]].map
+        fun k => (t.search k).isSome)
+    = some [true, true, true, true, true, false, false, false, false] := by
+  decide +kernel
 
 end Chokan.Props.C04
